@@ -16,6 +16,7 @@ import (
 	"encoding/base64"
 	"encoding/xml"
 	"errors"
+	"fmt"
 	"sync"
 
 	"mellium.im/xmlstream"
@@ -293,6 +294,20 @@ func open(ctx context.Context, h *Handler, acked bool, s *xmpp.Session, start st
 	}
 	/* #nosec */
 	defer resp.Close()
+
+	// The stream is only open if the other side accepted it.
+	tok, err := resp.Token()
+	if err != nil {
+		return nil, err
+	}
+	respStart, ok := tok.(xml.StartElement)
+	if !ok {
+		return nil, fmt.Errorf("ibb: expected IQ start token in reply to open, got %T", tok)
+	}
+	_, err = stanza.UnmarshalIQError(resp, respStart)
+	if err != nil {
+		return nil, err
+	}
 
 	conn, err := newConn(h, s, iq, false, MaxBufferSize), nil
 	if err != nil {
